@@ -498,6 +498,16 @@ pub fn run(ctx: &Ctx) {
         (prep(), gen::scalar256(&pr.n)).prop_map(|(p, scalar)| SM { p, scalar })
     }, check_scalar_mul);
 
+    ctx.cold("cold_start_g_mul", "fixed-base multiplication as the first library operation of a fresh process (the precomputed table path)", || {
+        (0..3u64).map(|i| GM { scalar: Hex(expand_bytes(i ^ 0xc11d, 32)) }).collect()
+    }, check_g_mul);
+    ctx.cold("cold_start_scalar_mul", "variable-base multiplication / addition as the first library operation of a fresh process", || {
+        (0..3u64).map(|i| SM { p: PRep { k: Hex(expand_bytes(i ^ 0xc11e, 32)), lambda: gen::hex32(&BigUint::from(1 + i)) }, scalar: Hex(expand_bytes(i ^ 0xc11f, 32)) }).collect()
+    }, check_scalar_mul);
+    ctx.cold("cold_start_field_ops", "one field operation as the first library operation of a fresh process (every operation of the table)", || {
+        (0..OPS.len() as u8).map(|op| FOp { op, a: Hex(expand_bytes(op as u64 ^ 0xc110, 32)), b: Hex(expand_bytes(op as u64 ^ 0xc111, 32)) }).collect()
+    }, check_fop);
+
     ctx.listed("edge_points", "boundary points of the curve (x next to 0, n, p, 2^256-p, powers of two; Montgomery x with all-ones / zero limbs; y with a leading zero byte) in affine and two Jacobian representations: dbl, add (G, itself, its negative), scalar_mul, encode, decode", || {
         let mut v = Vec::new();
         for point in 0..edge_points().len() {
